@@ -134,7 +134,7 @@ def keys_case(desc):
                     rows.append([c, float(t), float('nan'), 0])
     else:
         names = ['a', 'b']
-        step = float(rng.choice([2e-7, 1e-8, 3e-9]))
+        step = float(rng.choice([2e-7, 1e-8, 3e-9, 4e-10, 1.1e-13]))
         for ci, c in enumerate(names):
             for t in range(int(rng.integers(10, 30))):
                 dt = -100.0 * ci - t * step
